@@ -289,11 +289,82 @@ func instrPre(c Core, i compiler.Instruction) bool {
 	return false
 }
 
-/*@ func (self Core) fatalErr
+// fatalOf: i is a fatal runtime error of the given kind.
+func fatalOf(i *value.VmInterrupt, kind value.VMFatalExceptionKind) bool {
+	if i == nil || *i == nil {
+		return false
+	}
+	f, ok := (*i).(value.VmFatalException)
+	return ok && f.ErrKind == kind
+}
+
+// unaryResult: v is the value the language prescribes for the prefix operator applied to x.
+func unaryResult(op compiler.Opcode, x value.Value, v value.Value) bool {
+	switch a := x.(type) {
+	case value.ValueInt:
+		r, ok := v.(value.ValueInt)
+		if op == compiler.Opcode_Neg {
+			return ok && r.Inner == negInt(a.Inner)
+		}
+		return ok && r.Inner == ^a.Inner
+	case value.ValueFloat:
+		r, ok := v.(value.ValueFloat)
+		return ok && sameFloat(r.Inner, -a.Inner)
+	case value.ValueBool:
+		r, ok := v.(value.ValueBool)
+		return ok && r.Inner == !a.Inner
+	}
+	return false
+}
+
+/*@ func negInt
+    wrap int64
+@*/
+func negInt(a int64) int64 { return -a }
+
+// stackEffect: the net operand-stack effect of a covered instruction that
+// completes without raising an interrupt.
+func stackEffect(op compiler.Opcode) int {
+	switch op {
+	case compiler.Opcode_Copy_Push, compiler.Opcode_Duplicate, compiler.Opcode_GetVarImm:
+		return 1
+	case compiler.Opcode_Drop, compiler.Opcode_JumpIfFalse, compiler.Opcode_SetVarImm, compiler.Opcode_Pow, compiler.Opcode_Into_Range:
+		return -1
+	case compiler.Opcode_Assign:
+		return -2
+	}
+	if isBinary(op) {
+		return -1
+	}
+	return 0
+}
+
+// keepsFrame: instructions that neither jump nor call: they advance the
+// instruction pointer of the current frame by one.
+func keepsFrame(op compiler.Opcode) bool {
+	switch op {
+	case compiler.Opcode_Jump, compiler.Opcode_JumpIfFalse, compiler.Opcode_Call_Imm, compiler.Opcode_Return:
+		return false
+	}
+	return true
+}
+
+/*@ func (self Core) unwind
     serves C02
     trusted
     modifies nothing
-    ensures result != nil
+@*/
+
+/*@ func formatStackTrace
+    serves C02
+    trusted
+    modifies nothing
+@*/
+
+/*@ func (self Core) fatalErr
+    serves C02, C09
+    modifies nothing
+    ensures fatalOf(result, kind)
 @*/
 
 /*@ func (self *VM) SourceMap
@@ -303,10 +374,32 @@ func instrPre(c Core, i compiler.Instruction) bool {
 @*/
 
 /*@ func (self *Core) runInstruction
-    serves C01, C02, C04, C09, C11
+    serves C01, C02, C04, C09, C11, C16
     wrap int64
     requires covered(instruction.Opcode()) && instrPre(*self, instruction)
-    ensures @binary result == nil && isBinary(instruction.Opcode()) ==> self.depth() == old(self.depth())-1 && binResult(instruction.Opcode(), old(self.peek(1)), old(self.peek(0)), self.peek(0))
+    requires disjoint(self.CallStack, self.ExceptionCatchLabels) && disjoint(self.Stack, self.Memory)
+    requires self.Limits.MaxMemorySize < 1<<62
+    ensures @binary result == nil && isBinary(instruction.Opcode()) ==> binResult(instruction.Opcode(), old(self.peek(1)), old(self.peek(0)), self.peek(0))
     ensures @raises isBinary(instruction.Opcode()) ==> (result != nil <==> raises(instruction.Opcode(), old(self.peek(0))))
-    ensures @advance result == nil && isBinary(instruction.Opcode()) ==> len(self.CallStack) == old(len(self.CallStack)) && self.frameIP() == old(self.frameIP())+1
+    ensures @raises-kind isBinary(instruction.Opcode()) && result != nil ==> fatalOf(result, value.Vm_ValueErrorKind)
+    ensures @effect result == nil ==> self.depth() == old(self.depth())+stackEffect(instruction.Opcode())
+    ensures @advance result == nil && keepsFrame(instruction.Opcode()) ==> len(self.CallStack) == old(len(self.CallStack)) && self.frameIP() == old(self.frameIP())+1
+    ensures @unary result == nil && (instruction.Opcode() == compiler.Opcode_Neg || instruction.Opcode() == compiler.Opcode_Not) ==> unaryResult(instruction.Opcode(), old(self.peek(0)), self.peek(0))
+    ensures @no-error-otherwise !isBinary(instruction.Opcode()) && instruction.Opcode() != compiler.Opcode_AddMempointer && instruction.Opcode() != compiler.Opcode_Member_Unwrap ==> result == nil
+    ensures @jump instruction.Opcode() == compiler.Opcode_Jump ==> self.frameIP() == uint(instruction.(compiler.OneIntInstruction).Value) && len(self.CallStack) == old(len(self.CallStack))
+    ensures @jump-if-false instruction.Opcode() == compiler.Opcode_JumpIfFalse && !old(self.peek(0)).(value.ValueBool).Inner ==> self.frameIP() == uint(instruction.(compiler.OneIntInstruction).Value)
+    ensures @jump-if-true instruction.Opcode() == compiler.Opcode_JumpIfFalse && old(self.peek(0)).(value.ValueBool).Inner ==> self.frameIP() == old(self.frameIP())+1
+    ensures @get-var instruction.Opcode() == compiler.Opcode_GetVarImm ==> self.Stack[len(self.Stack)-1] == old(self.Memory[self.MemoryPointer-instruction.(compiler.OneIntInstruction).Value])
+    ensures @set-var instruction.Opcode() == compiler.Opcode_SetVarImm ==> self.Memory[self.MemoryPointer-instruction.(compiler.OneIntInstruction).Value] == old(self.Stack[len(self.Stack)-1])
+    ensures @dup instruction.Opcode() == compiler.Opcode_Duplicate ==> self.Stack[len(self.Stack)-1] == old(self.Stack[len(self.Stack)-1])
+    ensures @mempointer instruction.Opcode() == compiler.Opcode_AddMempointer ==> self.MemoryPointer == intOp(compiler.Opcode_Add, old(self.MemoryPointer), instruction.(compiler.OneIntInstruction).Value)
+    ensures @out-of-memory instruction.Opcode() == compiler.Opcode_AddMempointer ==> (result != nil <==> self.MemoryPointer >= int64(self.Limits.MaxMemorySize))
+    ensures @out-of-memory-kind instruction.Opcode() == compiler.Opcode_AddMempointer && result != nil ==> fatalOf(result, value.Vm_OutOfMemoryErrorKind)
+    ensures @try-push instruction.Opcode() == compiler.Opcode_SetTryLabel ==> len(self.ExceptionCatchLabels) == old(len(self.ExceptionCatchLabels))+1 && self.ExceptionCatchLabels[len(self.ExceptionCatchLabels)-1].Function == instruction.(compiler.OneIntOneStringInstruction).ValueString && self.ExceptionCatchLabels[len(self.ExceptionCatchLabels)-1].InstructionPointer == uint(instruction.(compiler.OneIntOneStringInstruction).ValueInt)
+    ensures @try-pop instruction.Opcode() == compiler.Opcode_PopTryLabel ==> len(self.ExceptionCatchLabels) == old(len(self.ExceptionCatchLabels))-1
+    ensures @call instruction.Opcode() == compiler.Opcode_Call_Imm ==> len(self.CallStack) == old(len(self.CallStack))+1 && self.frameIP() == 0 && self.CallStack[len(self.CallStack)-1].Function == instruction.(compiler.OneStringInstruction).Value && self.CallStack[len(self.CallStack)-2].InstructionPointer == old(self.frameIP())+1
+    ensures @return instruction.Opcode() == compiler.Opcode_Return ==> len(self.CallStack) == old(len(self.CallStack))-1
+    ensures @member-anyobj instruction.Opcode() == compiler.Opcode_Member_Anyobj ==> self.peek(0).Kind() == value.OptionValueKind
+    ensures @unwrap-none instruction.Opcode() == compiler.Opcode_Member_Unwrap ==> (result != nil <==> old(self.peek(0)).(value.ValueOption).Inner == nil)
+    ensures @some instruction.Opcode() == compiler.Opcode_Some ==> self.peek(0).Kind() == value.OptionValueKind && self.peek(0).(value.ValueOption).Inner != nil && *self.peek(0).(value.ValueOption).Inner == old(self.peek(0))
 @*/
